@@ -154,7 +154,20 @@ func (s *c5Sink) Write(p []byte) (int, error) {
 	}
 	t := s.r.task()
 	if t.cap == nil {
-		zsim.Fail("C05.bytes", "sink %d received a write outside any emission of task %d: %s", s.idx, zsim.CurID(), clip(p, 100))
+		// written by a goroutine that is not logging itself (a helper of the writer): it
+		// belongs to the only emission in progress, if there is exactly one
+		var only *c5Task
+		n := 0
+		for _, x := range s.r.tasks {
+			if x.cap != nil {
+				only = x
+				n++
+			}
+		}
+		if n != 1 {
+			zsim.Fail("C05.bytes", "sink %d received a write outside any emission of task %d: %s", s.idx, zsim.CurID(), clip(p, 100))
+		}
+		t = only
 	}
 	*t.cap = append(*t.cap, c5Write{s.idx, append([]byte{}, p...)})
 	zsim.Yield("sink.Write")
